@@ -86,7 +86,7 @@ Qed.
 
 (* the command line enters the output of a type only through the flags and the header *)
 Lemma new_cmd_sim : forall c c' st v T,
-  c_getset c = c_getset c' -> c_json c = c_json c' -> c_opt c = c_opt c' ->
+  c_getset c = c_getset c' -> c_json c = c_json c' -> c_optflags c = c_optflags c' ->
   same_body (fun (_ : nstate) d => new_render d) (fun (_ : nstate) d => new_render d) (new_make c st v T) (new_make c' st v T).
 Proof.
   intros c c' st v T Hg Hj Ho. unfold new_make, new_make_gen.
@@ -109,14 +109,15 @@ Proof.
     as [[[[gl sl] gi] si] ms] eqn:Eg.
   assert (Ef : n_fields st2' = extract_top (S (List.length (pv_hand v))) c' v s) by reflexivity.
   rewrite Ef, Eg. unfold new_finish. cbn. split; auto.
-  unfold body, new_render, mk_file. cbn. rewrite Hg, Hj, Ho. reflexivity.
+  unfold c_optflags in Ho. injection Ho as Ho Hs.
+  unfold body, new_render, mk_file. cbn. rewrite Hg, Hj, Ho, Hs. reflexivity.
 Qed.
 
 Definition nrender := fun (_ : nstate) (d : ndata) => new_render d.
 
 Theorem new_aio_is_concatenation : forall c (cT : string -> cmd) hw o disk st types fmap sm,
   no_embedding (hand_of hw) ->
-  (forall T, c_types (cT T) = [T] /\ c_file (cT T) = "" /\ c_getset (cT T) = c_getset c /\ c_json (cT T) = c_json c /\ c_opt (cT T) = c_opt c) ->
+  (forall T, c_types (cT T) = [T] /\ c_file (cT T) = "" /\ c_getset (cT T) = c_getset c /\ c_json (cT T) = c_json c /\ c_optflags (cT T) = c_optflags c) ->
   separate c = false ->
   confirm_types (list_types_of CNew) c o (mk_view hw disk []) = Some (types, fmap) ->
   generate (new_make c) nrender (list_types_of CNew) c o hw disk st = Some sm ->
@@ -182,7 +183,7 @@ Qed.
    ones -- the overlay of the single run is that directory *)
 Theorem new_aio_is_sequential : forall c (cT : string -> cmd) hw disk fmap o st st' types sm,
   c_getset c = true ->
-  (forall T, c_types (cT T) = [T] /\ c_file (cT T) = "" /\ c_getset (cT T) = c_getset c /\ c_json (cT T) = c_json c /\ c_opt (cT T) = c_opt c) ->
+  (forall T, c_types (cT T) = [T] /\ c_file (cT T) = "" /\ c_getset (cT T) = c_getset c /\ c_json (cT T) = c_json c /\ c_optflags (cT T) = c_optflags c) ->
   separate c = false ->
   confirm_types (list_types_of CNew) c o (mk_view hw disk []) = Some (types, fmap) ->
   NoDup (map (nm c hw fmap) types) ->
@@ -221,7 +222,7 @@ Theorem new_permutation : forall c c' hw o disk st st',
   specified c = true -> specified c' = true ->
   Permutation (c_types c) (c_types c') -> c_file c = c_file c' -> c_sub c = c_sub c' ->
   c_star c = false -> c_star c' = false ->
-  c_getset c = c_getset c' -> c_json c = c_json c' -> c_opt c = c_opt c' ->
+  c_getset c = c_getset c' -> c_json c = c_json c' -> c_optflags c = c_optflags c' ->
   match generate (new_make c) nrender (list_types_of CNew) c o hw disk st,
         generate (new_make c') nrender (list_types_of CNew) c' o hw disk st' with
   | Some sm, Some sm' => map nb (listing sm) = map nb (listing sm')
@@ -324,7 +325,7 @@ Qed.
 
 Theorem new_noget_aio_is_concatenation : forall c (cT : string -> cmd) hw disk fmap o st st' types sm,
   c_getset c = false ->
-  (forall T, c_getset (cT T) = c_getset c /\ c_json (cT T) = c_json c /\ c_opt (cT T) = c_opt c) ->
+  (forall T, c_getset (cT T) = c_getset c /\ c_json (cT T) = c_json c /\ c_optflags (cT T) = c_optflags c) ->
   separate c = false ->
   confirm_types (list_types_of CNew) c o (mk_view hw disk []) = Some (types, fmap) ->
   generate (new_make c) nrender (list_types_of CNew) c o hw disk st = Some sm ->
@@ -347,7 +348,7 @@ Theorem new_noget_permutation : forall c c' hw disk o st st',
   c_getset c = false -> c_getset c' = false ->
   specified c = true -> specified c' = true ->
   Permutation (c_types c) (c_types c') -> c_file c = c_file c' -> c_sub c = c_sub c' ->
-  c_star c = false -> c_star c' = false -> c_json c = c_json c' -> c_opt c = c_opt c' ->
+  c_star c = false -> c_star c' = false -> c_json c = c_json c' -> c_optflags c = c_optflags c' ->
   match generate (new_make c) nrender (list_types_of CNew) c o hw disk st,
         generate (new_make c') nrender (list_types_of CNew) c' o hw disk st' with
   | Some sm, Some sm' => map nb (listing sm) = map nb (listing sm')
